@@ -32,16 +32,24 @@ def afterPeek : List Bytes → List Bytes
   | [] => []
   | p :: r => if p = [] then r else p :: r
 
+/-- the peek loop on the remaining lines; `lastc` is what `peeked` holds (nothing, or the
+comment peeked last). Returns the trimmed line the decision is made on and the lines that
+will still be delivered: at the end of the input the last comment stays behind. -/
+def peekL : List Bytes → Bytes → Bytes × List Bytes
+  | [], lastc => ([], if lastc = [] then [] else [lastc])
+  | p :: r, _ =>
+    if (trimSpace p).head? = some 35 then peekL r p else (trimSpace p, afterPeek (p :: r))
+
 def callL (cfg : Cfg) (ls : List Bytes) (h : Heap) : Outcome Target × List Bytes × Heap :=
   match skipL ls with
   | none => (.error eNoTargets, [], h)
   | some (line, r) =>
-    match requestLine cfg line with
-    | .error e => (.error e, r, h)
+    match requestLine cfg line (copyDefaults cfg.hdr h).1 with
+    | .error e => (.error e, r, (copyDefaults cfg.hdr h).2)
     | .ok tgt =>
-      if returnsAfterPeek (r.head?.getD []) then (.ok tgt, afterPeek r, h)
+      if returnsAfterPeek (peekL r []).1 then (.ok tgt, (peekL r []).2, (copyDefaults cfg.hdr h).2)
       else
-        match headerL cfg r tgt h with
+        match headerL cfg (peekL r []).2 tgt (copyDefaults cfg.hdr h).2 with
         | (some e, r3, _, h3) => (.error e, r3, h3)
         | (none, r3, tgt3, h3) => (.ok tgt3, r3, h3)
 
@@ -170,17 +178,65 @@ theorem skipL_length {ls : List Bytes} {line : Bytes} {r : List Bytes} (hs : ski
     · cases hs; simp
     · have := ih hs; simp; omega
 
-theorem peek_refines (ps : PS) (hp : ps.peeked = []) (hr : ps.rest = eff ps) :
-    ∃ ps', ps.peek = ((eff ps).head?.getD [], ps') ∧ eff ps' = afterPeek (eff ps) ∧
-      (ps'.rest.length + 1 ≤ (eff ps).length ∨ (eff ps = [] ∧ ps'.rest = [])) := by
-  cases he : eff ps with
-  | nil =>
-    have hr' : ps.rest = [] := by rw [hr, he]
-    refine ⟨{ ps with cur := [] }, by simp [PS.peek, PS.srcScan, hr'], by simp [eff, hp, hr', afterPeek], Or.inr ⟨rfl, hr'⟩⟩
-  | cons p r =>
-    have hr' : ps.rest = p :: r := by rw [hr, he]
-    refine ⟨{ ps with rest := r, cur := p, peeked := p }, by simp [PS.peek, PS.srcScan, hr'], ?_, Or.inl (by simp)⟩
-    simp only [eff, afterPeek]
+theorem trimSpace_nil : trimSpace [] = [] := by decide
+
+/-- the peek loop refines `peekL`: `rest` are the lines the scanner still has, `peeked` what the
+last `Peek` left there -/
+theorem peekLoop_refines : ∀ (fuel : Nat) (ps : PS), ps.rest.length < fuel →
+    (peekLoop fuel ps).1 = (peekL ps.rest ps.peeked).1 ∧ eff (peekLoop fuel ps).2 = (peekL ps.rest ps.peeked).2 := by
+  intro fuel
+  induction fuel with
+  | zero => intro ps h; omega
+  | succ f ih =>
+    intro ps hf
+    cases hr : ps.rest with
+    | nil =>
+      have hp : ps.peek = ([], { ps with cur := [] }) := by simp [PS.peek, PS.srcScan, hr]
+      simp only [peekLoop, hp, trimSpace_nil, peekL]
+      refine ⟨by simp, ?_⟩
+      simp only [List.head?_nil, reduceCtorEq, ↓reduceIte, eff, hr]
+    | cons p r =>
+      have hp : ps.peek = (p, { ps with rest := r, cur := p, peeked := p }) := by simp [PS.peek, PS.srcScan, hr]
+      simp only [peekLoop, hp, peekL]
+      by_cases hc : (trimSpace p).head? = some 35
+      · simp only [hc, ↓reduceIte]
+        have := ih { ps with rest := r, cur := p, peeked := p } (by simp only; rw [hr] at hf; simp at hf; omega)
+        simpa using this
+      · simp [hc, eff, afterPeek]
+
+theorem peekL_length : ∀ (r : List Bytes) (lastc : Bytes),
+    (peekL r lastc).2.length ≤ r.length + (if lastc = [] then 0 else 1) := by
+  intro r
+  induction r with
+  | nil => intro lastc; simp only [peekL]; split <;> simp
+  | cons p r ih =>
+    intro lastc
+    simp only [peekL]
+    split
+    · have := ih p
+      have hp : p ≠ [] := by
+        intro h0; rename_i hc; rw [h0, trimSpace_nil] at hc; cases hc
+      simp only [hp, ↓reduceIte] at this
+      simp only [List.length_cons]; split <;> omega
+    · simp only [afterPeek]
+      split <;> split <;> simp <;> omega
+
+/-- a line the decision does not return on is delivered again: nothing was lost -/
+theorem peekL_not_returning : ∀ (r : List Bytes) (lastc : Bytes), returnsAfterPeek (peekL r lastc).1 = false →
+    ∃ p r', (peekL r lastc).2 = p :: r' ∧ (peekL r lastc).1 = trimSpace p := by
+  intro r
+  induction r with
+  | nil => intro lastc h; simp [peekL, returnsAfterPeek] at h
+  | cons p r ih =>
+    intro lastc h
+    simp only [peekL] at h ⊢
+    split
+    · rename_i hc; rw [if_pos hc] at h; exact ih p h
+    · rename_i hc
+      rw [if_neg hc] at h
+      have hp : p ≠ [] := by
+        intro h0; rw [h0, trimSpace_nil] at h; simp [returnsAfterPeek] at h
+      exact ⟨p, r, by simp [afterPeek, hp], rfl⟩
 
 /-- **Refinement**: one call on a scanner state is `callL` on the lines it will still deliver. -/
 theorem call_refines (cfg : Cfg) (st : St) :
@@ -198,31 +254,29 @@ theorem call_refines (cfg : Cfg) (st : St) :
   | some lr =>
     obtain ⟨line, r⟩ := lr
     have e2' : eff ps1 = r := by simp [e2, hs]
+    have hrest : ps1.rest = r := by rw [e4, e2']
+    have hrlen := skipL_length hs
     simp only [Option.map_some]
-    cases hrq : requestLine cfg line with
+    cases hrq : requestLine cfg line (copyDefaults cfg.hdr st.heap).1 with
     | error e => exact ⟨ps1, rfl, e2'⟩
     | ok tgt =>
-      obtain ⟨ps2, p1, p2, p3⟩ := peek_refines ps1 e3 e4
-      rw [e2'] at p1 p2 p3
+      obtain ⟨p1, p2⟩ := peekLoop_refines (st.ps.rest.length + 2) ps1 (by rw [hrest]; omega)
+      rw [hrest, e3] at p1 p2
+      generalize hpl : peekLoop (st.ps.rest.length + 2) ps1 = pl at p1 p2
+      obtain ⟨line2, ps2⟩ := pl
+      simp only at p1 p2
       simp only [p1]
-      cases hret : returnsAfterPeek (r.head?.getD []) with
+      cases hret : returnsAfterPeek (peekL r []).1 with
       | true => exact ⟨ps2, rfl, p2⟩
       | false =>
-        -- the peeked line is not blank, hence not empty: nothing was lost
-        have hne : r.head?.getD [] ≠ [] := by
-          intro h0; rw [h0] at hret; revert hret; decide
-        have hr2 : eff ps2 = r := by
-          rw [p2]
-          cases r with
-          | nil => simp at hne
-          | cons p r' => simp at hne; simp [afterPeek, hne]
         have hlen : (eff ps2).length < st.ps.rest.length + 2 := by
-          have := skipL_length hs
-          rw [hr2]; omega
-        obtain ⟨ps3, q1, q2⟩ := headerLoop_refines cfg (st.ps.rest.length + 2) ps2 tgt st.heap hlen
-        rw [hr2] at q1 q2
+          have := peekL_length r []
+          simp only [↓reduceIte] at this
+          rw [p2]; omega
+        obtain ⟨ps3, q1, q2⟩ := headerLoop_refines cfg (st.ps.rest.length + 2) ps2 tgt (copyDefaults cfg.hdr st.heap).2 hlen
+        rw [p2] at q1 q2
         simp only [Bool.false_eq_true, ↓reduceIte, q1]
-        generalize headerL cfg r tgt st.heap = res at q2
+        generalize headerL cfg (peekL r []).2 tgt (copyDefaults cfg.hdr st.heap).2 = res at q2
         obtain ⟨e, r3, t3, h3⟩ := res
         cases e with
         | none => exact ⟨ps3, rfl, q2⟩
